@@ -15,6 +15,7 @@ failure), from which the run must end promptly.
 """
 import asyncio
 import collections
+import functools
 import itertools
 import logging
 import time
@@ -115,6 +116,29 @@ class Prod(event.Producer):
             raise self.exc
 
 
+class _CallableObj:
+    """A handler / job that is an instance with `async def __call__` (no __qualname__ / __name__ of its own)."""
+
+    def __init__(self, fn):
+        self._fn = fn
+
+    async def __call__(self, *args):
+        return await self._fn(*args)
+
+
+async def _call_with_extra(fn, *args, limit=None):
+    return await fn(*args)
+
+
+def as_kind(fn, kind):
+    """The same async callable as a plain function / a functools.partial / a callable instance."""
+    if kind == "partial":
+        return functools.partial(_call_with_extra, fn, limit=10)
+    if kind == "callable":
+        return _CallableObj(fn)
+    return fn
+
+
 class _Capture(logging.Handler):
     def __init__(self):
         super().__init__()
@@ -160,6 +184,18 @@ def scenarios(tier, seed):
                         for nidle in (1, 2):
                             out.append((kind, fails, maxc, inject, 1, 1, "idle-raises", HD, nidle, "WARNING",
                                         _opts(late=True, limit=SHORT_LIMIT)))
+        # what kind of callable the failing handler / job is (plain function, functools.partial, callable instance), for
+        # every place a failure can come from, with and without stop-on-error; fault-free executions only (one each)
+        for fails in ((None, None), (None, "main1")):
+            for maxc in (1, 2, 3):
+                for rk in ("fn", "partial", "callable"):
+                    late = _opts(late=True, limit=0.3, rk=rk)
+                    for hflavour in ("raises", "raises-sniff", "job-raises", "pre-raises", "post-raises", "raises-stop",
+                                     "job-raises-stop"):
+                        out.append((kind, fails, maxc, None, 1, 1, hflavour, HD, 0, "WARNING", late))
+                    for hflavour in ("raises-stop", "job-raises-stop"):
+                        if rk != "fn" or hflavour == "job-raises-stop":
+                            out.append((kind, fails, maxc, None, 1, 2, hflavour, LONG, 0, "WARNING", _opts(rk=rk)))
         # logging
         for fails in ((None, None), ("init", None), (None, "main0"), ("fin", None)):
             for inject in (None, "stop", "cancel"):
@@ -211,7 +247,9 @@ def make_run(sc, tier, states=None):
     def run_one(ch):
         log = []
         d = bs.backtesting_dispatcher(maxc) if kind == "bt" else bs.realtime_dispatcher(maxc)
-        d.stop_on_handler_exceptions = hflavour == "raises-stop"
+        d.stop_on_handler_exceptions = hflavour in ("raises-stop", "job-raises-stop")
+        rk = opts.get("rk", "fn")
+        entries = []
         state = {"task": None, "injected": [], "loop": None, "inj_time": None, "trigger": None}
 
         def lt():
@@ -244,6 +282,7 @@ def make_run(sc, tier, states=None):
             inflight[0] = sum(1 for v in active.values() if v > 0)
             maxin[0] = max(maxin[0], inflight[0])
             counts[what] += 1
+            entries.append(lt())
             log.append((what,))
 
         def leave(key, what, how):
@@ -270,24 +309,26 @@ def make_run(sc, tier, states=None):
                     how = "returned"
                 finally:
                     leave(k, what, how)
-            return h
+            return as_kind(h, rk) if raises else h
 
         def mkjob(k):
             async def job():
                 enter("job", ("job", k))
                 how = "cancelled"
                 try:
-                    if hflavour == "job-raises" and k == 0:
+                    if hflavour in ("job-raises", "job-raises-stop") and k == 0:
                         how = "raised"
+                        if d.stop_on_handler_exceptions:
+                            trigger()
                         raise ValueError("job fails")
                     if hdur:
                         await asyncio.sleep(hdur if hdur >= LONG else min(hdur, 0.03))  # (long handlers => long jobs)
                     how = "returned"
                 finally:
                     leave(("job", k), "job", how)
-            return job
+            return as_kind(job, rk) if k == 0 else job
 
-        ha = mkh("ha", raises=hflavour in ("raises", "raises-stop"), stops=hflavour == "stops")
+        ha = mkh("ha", raises=hflavour in ("raises", "raises-stop", "raises-sniff"), stops=hflavour == "stops")
         hb = mkh("hb")
         for s in srcs:
             d.subscribe(s, ha)
@@ -296,6 +337,9 @@ def make_run(sc, tier, states=None):
         if hflavour == "pre-raises":
             d.subscribe_all(mkh("pre0", raises=True), front_run=True)
             d.subscribe_all(mkh("pre1"), front_run=True)
+            d.subscribe_all(mkh("post0"))
+        elif hflavour == "raises-sniff":
+            d.subscribe_all(mkh("pre0"), front_run=True)
             d.subscribe_all(mkh("post0"))
         elif hflavour == "post-raises":
             d.subscribe_all(mkh("pre0"), front_run=True)
@@ -416,12 +460,14 @@ def make_run(sc, tier, states=None):
         return dict(out=out, log=log, maxin=maxin[0], injected=state["injected"], steps=loop.end_steps,
                     end_time=state.get("end_time", loop.time()), inj_time=state["inj_time"], limited=bool(state.get("limited")),
                     counts=dict(counts), errs=errs, log_after=log_after, inject_exc=state.get("inject_exc"),
-                    trigger=state["trigger"], running_at_end=state.get("running_at_end", []),
+                    trigger=state["trigger"], last_entry=max(entries) if entries else None, running_at_end=state.get("running_at_end", []),
                     left={f"{w}:{h}": n for (w, h), n in sorted(left.items())})
     return run_one
 
 
-SNIFFERS = {"pre-raises": ("pre0", "pre1", "post0"), "post-raises": ("pre0", "post0", "post1")}
+SNIFFERS = {"pre-raises": ("pre0", "pre1", "post0"), "post-raises": ("pre0", "post0", "post1"),
+            "raises-sniff": ("pre0", "post0")}
+STOPPING = ("stops", "raises-stop", "job-raises-stop")
 
 
 def oracle(sc, r):
@@ -455,7 +501,7 @@ def oracle(sc, r):
             bad.append(("not-prompt", "run still going at the horizon (5 virtual s) after stop/cancel/failure"))
         else:
             bad.append(("outcome", f"run ended with {out}, allowed {sorted(allowed)}"))
-    elif injected and out == "returned" and injected == ["cancel"] and not r["limited"] and hflavour not in ("stops", "raises-stop") \
+    elif injected and out == "returned" and injected == ["cancel"] and not r["limited"] and hflavour not in STOPPING \
             and not any(f in ("init", "main0", "main1", "mainret") for f in fails):
         # a cancelled run that nobody stopped must not pretend it returned normally. (Backtesting: unless everything had
         # been handled already, i.e. the cancellation arrived when the run was over anyway.)
@@ -469,6 +515,11 @@ def oracle(sc, r):
         if r["end_time"] - r["trigger"] > 1.0:
             bad.append(("not-prompt", f"run ended {r['end_time'] - r['trigger']:.2f} virtual s after it had to end "
                         "(injected fault / stop() / handler error with stop-on-error / producer failure)"))
+    # ... and nothing new is started once the run has to end (stop-on-error set => the first failing handler / job is the
+    # last thing that starts at a later instant; the same after stop(), a cancellation, a producer failure)
+    if r["trigger"] is not None and r["last_entry"] is not None and r["last_entry"] > r["trigger"] + 1e-9:
+        bad.append(("started-after-stop", f"a handler / job was started at {r['last_entry']:.3f} virtual s although the run "
+                    f"had to end at {r['trigger']:.3f} (stop() / stop-on-error / cancellation / producer failure)"))
     if r["running_at_end"] and out in ("returned", "cancelled", "producer-error"):
         bad.append(("orphan-handler", f"handlers of {r['running_at_end']} were still running when run() ended (neither "
                     "awaited nor cancelled)"))
@@ -479,7 +530,7 @@ def oracle(sc, r):
     if r["errs"]:
         bad.append(("loop-error", f"the event loop's exception handler was called: {r['errs'][0]}"))
     # fault isolation: in an undisturbed run everything is handled although a handler / job / idle handler raises
-    undisturbed = not injected and not any(fails) and hflavour not in ("stops", "raises-stop")
+    undisturbed = not injected and not any(fails) and hflavour not in STOPPING
     if undisturbed and out == "returned" and hdur < 1:
         c = r["counts"]
         if c.get("ha", 0) != exp_ev or c.get("hb", 0) != exp_ev:
@@ -493,7 +544,7 @@ def oracle(sc, r):
         # cancels half-way has been prevented from running). Judged only where something raises: what the dispatcher does
         # to handlers in a run without any failure is not part of the statement.
         cancelled = {k: v for k, v in r["left"].items() if k.endswith(":cancelled")}
-        if cancelled and hflavour in ("raises", "job-raises", "pre-raises", "post-raises", "idle-raises"):
+        if cancelled and hflavour in ("raises", "raises-sniff", "job-raises", "pre-raises", "post-raises", "idle-raises"):
             bad.append(("fault-isolation", f"a handler raised and other handlers were cancelled although nobody stopped "
                         f"the run: {cancelled}"))
     return bad
